@@ -131,10 +131,16 @@ PLANS = {
         ],
     },
     "C14": {
-        "clauses": ["C14_Stutter", "C01_Exact"],
+        "clauses": ["C14_Stutter", "C01_Exact", "C02_Carried"],
+        "expect_actions": {"any": ["ReadOnly", "CkptRepeat", "Ckpt", "Commit"]},
         "quick": [
             dict(name="decorated", consts=consts(alphabet=DECORATED, steps=6, commits=2, uid=4, lines=3),
-                 invariants=G_ALL, budget=320, variants=RENDERS[:3]),
+                 invariants=G_ALL, budget=240, variants=RENDERS[:3]),
+            # pending attribution carried over a partial commit, with and without the pre-edit human checkpoint
+            dict(name="carried", consts=consts(files=("f", "g"), alphabet=("edit_ins", "ckpt", "commit_paths",
+                                                                          "commit_all"),
+                                               steps=7, commits=3, uid=5, lines=4, sessions=("S1",)),
+                 invariants=G_ALL, budget=200, variants=RENDERS[:2], per_tag=1),
         ],
         "thorough": [
             dict(name="decorated", consts=consts(alphabet=DECORATED, steps=7, commits=2, uid=5, lines=3),
@@ -376,6 +382,31 @@ PLANS["C11"] = {
              budget=200, variants=[("-", "-")], per_tag=3),
         dict(name="four", consts=conc_consts(("p1", "p2"), ("p3", "p4"), 8), invariants=["G_C11_NothingLost"],
              budget=400, variants=[("-", "-")], per_tag=1),
+    ],
+}
+
+
+PLAINTWIN = [{"mode": "plain", "uv": True}]
+C06_ALPHA = MIXED + ("readonly", "readonly_more", "reset_hard", "restore", "mv")
+PLANS["C06"] = {
+    "clauses": ["C06_Same"],
+    "expect_actions": {"any": ["ReadOnly", "Commit", "Amend", "Rebase", "StashPush", "ResetHard"]},
+    "quick": [
+        dict(name="porcelain", consts=consts(files=("f", "g"), alphabet=C06_ALPHA, steps=5, commits=3, uid=4, lines=3),
+             invariants=[], budget=220, variants=[("plain", "plain"), ("plain", "spaces"), ("crlf", "unicode")],
+             twins=PLAINTWIN, per_tag=1, extra={"uv": True}),
+        dict(name="rewrite", consts=consts(alphabet=REWRITE + ("amend", "readonly_more"), steps=8, commits=7,
+                                           uid=4, lines=4, sessions=("S1",)), invariants=[], budget=140,
+             variants=[("plain", "plain"), ("plain", "dashy")], twins=PLAINTWIN, per_tag=1, extra={"uv": True}),
+    ],
+    "thorough": [
+        dict(name="porcelain", consts=consts(files=("f", "g"), alphabet=C06_ALPHA, steps=7, commits=3, uid=5, lines=3),
+             invariants=[], budget=1500, variants=RENDERS, twins=PLAINTWIN, per_tag=1, extra={"uv": True},
+             timeout=3000, workers=12),
+        dict(name="rewrite", consts=consts(files=("f", "g"), alphabet=REWRITE + ("amend", "irebase", "cherry_many",
+                                                                                 "readonly_more", "stash"),
+                                           steps=10, commits=8, uid=5, lines=4, sessions=("S1",)), invariants=[],
+             budget=1000, variants=RENDERS, twins=PLAINTWIN, per_tag=1, extra={"uv": True}, timeout=3000, workers=12),
     ],
 }
 
